@@ -39,7 +39,16 @@ BUILDERS = [("__getstate__", "MGetState", "gen_getstate"), ("__setstate__", "MSe
 ENABLE_BUILDERS = True
 if ENABLE_BUILDERS:
     METHODS = METHODS + BUILDERS
-ACC_TOKS, ACC_PAIRS = 998, 999          # environment slots that collect what a generator yields
+COMPARERS = [("__eq__", "MEq", "gen_eq"), ("__ne__", "MNe", "gen_ne"),
+             ("sortedvalues", "MSortedValues", "gen_sortedvalues")]
+SV_TRY = ("try:\n    superself_iteritems = super().iteritems()\nexcept AttributeError:\n"
+          "    superself_iteritems = super().items()")
+SV_MAP = "{k: sorted(v, key=key, reverse=reverse)[::-1] for k, v in superself_iteritems}"
+ENABLE_COMPARERS = True
+if ENABLE_COMPARERS:
+    METHODS = METHODS + COMPARERS
+ACC_TOKS, ACC_PAIRS = 998, 999
+ARGNAMES = ("E", "F", "other")            # parameters that hold an argument object (mapping / OMD / junk)          # environment slots that collect what a generator yields
 KWARGS_OK = {"update", "update_extend"}      # methods whose **F is translated (second argument of the call)
 CTOR = {py: c for py, c, _ in METHODS}
 FIELDS = {"PREV": "FPrev", "NEXT": "FNext", "KEY": "FKey", "VALUE": "FVal"}
@@ -71,6 +80,9 @@ class Method:
         self.store_getitem_alias = set()   # local names bound to super().__getitem__
         self.yield_kinds = set()
         self.cls_alias = set()    # local names bound to self.__class__
+        self.store_items_alias = set()   # local names bound to super().items()
+        self.zip_alias = {}       # local name -> (it1, it2) for zip_longest(it1, it2, fillvalue=(_MISSING, _MISSING))
+        self.exhausted = set()    # iterators run to their end by a zip_longest loop without break
         self.meth_alias = {}      # local name -> python method name (x = self._insert)
         self.super_alias = set()  # local names bound to super()
         self.map_alias = set()    # local names bound to self._map (only in _clear_ll)
@@ -145,6 +157,22 @@ class Method:
             return "(EVar %d)" % self.var(e.id)
         if isinstance(e, ast.Tuple) and not e.elts:
             return "EEmptyTuple"
+        if isinstance(e, ast.BoolOp) and len(e.values) == 2:
+            return "(%s %s %s)" % ("EOr" if isinstance(e.op, ast.Or) else "EAnd",
+                                   self.expr(e.values[0], boolean=True), self.expr(e.values[1], boolean=True))
+        if isinstance(e, ast.Compare) and len(e.ops) == 1 and isinstance(e.ops[0], ast.Is) \
+                and _is_self(e.left) and isinstance(e.comparators[0], ast.Name):
+            return "(EIsSelf %s)" % self.expr(e.comparators[0])
+        if isinstance(e, ast.Compare) and len(e.ops) == 1 and isinstance(e.ops[0], ast.Is) \
+                and isinstance(e.comparators[0], ast.Name) and e.comparators[0].id == "_MISSING" \
+                and isinstance(e.left, ast.Call) and isinstance(e.left.func, ast.Name) and e.left.func.id == "next" \
+                and len(e.left.args) == 2 and isinstance(e.left.args[0], ast.Name) \
+                and e.left.args[0].id in self.exhausted and ast.unparse(e.left.args[1]) == "_MISSING":
+            return "EExhausted"
+        if isinstance(e, ast.Compare) and len(e.ops) == 1 and isinstance(e.ops[0], ast.NotEq):
+            return "(ENe %s %s)" % (self.expr(e.left), self.expr(e.comparators[0]))
+        if isinstance(e, ast.Compare) and len(e.ops) == 1 and isinstance(e.ops[0], ast.Eq) and _is_self(e.left):
+            return self.call_method("__eq__", [e.comparators[0]], [], e)
         if isinstance(e, ast.Compare) and len(e.ops) == 1 and isinstance(e.ops[0], ast.Is) \
                 and _is_self(e.comparators[0]):
             return "(EIsSelf %s)" % self.expr(e.left)
@@ -198,7 +226,7 @@ class Method:
                 return self.call_method("__getitem__", [s], [], e)
             if self.is_map(e.value):
                 return "(EMapGet %s)" % self.expr(s)
-            if isinstance(e.value, ast.Name) and e.value.id in ("E", "F") and isinstance(s, ast.Name):
+            if isinstance(e.value, ast.Name) and e.value.id in ARGNAMES and isinstance(s, ast.Name):
                 return "(EArgGet %s %s)" % (self.expr(e.value), self.expr(s))
             self.bad("subscript", e)
         if isinstance(e, ast.List):
@@ -257,14 +285,21 @@ class Method:
     def call(self, e):
         f = e.func
         src = ast.unparse(e)
-        if src == "isinstance(E, OrderedMultiDict)":
-            return "(EIsOMD %s)" % self.expr(ast.Name(id="E"))
-        if src in ("callable(getattr(E, 'keys', None))", "hasattr(E, 'keys')"):
-            return "(EHasKeys %s)" % self.expr(ast.Name(id="E"))
-        if src == "E.keys()":
-            return "(EArgKeys %s)" % self.expr(ast.Name(id="E"))
-        if src == "E.iteritems(multi=True)":
-            return "(EArgItemsMulti %s)" % self.expr(ast.Name(id="E"))
+        for an in ARGNAMES:
+            if an not in self.vars:
+                continue
+            if src == "isinstance(%s, OrderedMultiDict)" % an:
+                return "(EIsOMD %s)" % self.expr(ast.Name(id=an))
+            if src in ("callable(getattr(%s, 'keys', None))" % an, "hasattr(%s, 'keys')" % an):
+                return "(EHasKeys %s)" % self.expr(ast.Name(id=an))
+            if src == "%s.keys()" % an:
+                return "(EArgKeys %s)" % self.expr(ast.Name(id=an))
+            if src == "%s.iteritems(multi=True)" % an:
+                return "(EArgItemsMulti %s)" % self.expr(ast.Name(id=an))
+            if src == "len(%s)" % an:
+                return "(ELenObj %s)" % self.expr(ast.Name(id=an))
+        if src == "len(self)":
+            return "ELenSelf"
         if src == "iter(E.items())":
             return "(EArgItems %s)" % self.expr(ast.Name(id="E"))
         if src == "set()":
@@ -327,6 +362,31 @@ class Method:
             return None                                         # docstring
         if isinstance(s, ast.Pass):
             return "SPass"
+        if isinstance(s, ast.Try) and ast.unparse(s) == SV_TRY:      # the python-2 spelling falls back to items()
+            self.store_items_alias.add("superself_iteritems")
+            return None
+        if isinstance(s, ast.Assign) and len(s.targets) == 1 and isinstance(s.targets[0], ast.Name) \
+                and ast.unparse(s.value) == SV_MAP and "superself_iteritems" in self.store_items_alias \
+                and "key" in self.vars and "reverse" in self.vars:
+            return "(SAssign %d (ESortedValMap %s %s))" % (self.var(s.targets[0].id, define=True),
+                                                            self.expr(ast.Name(id="key")),
+                                                            self.expr(ast.Name(id="reverse")))
+        if isinstance(s, ast.Assign) and len(s.targets) == 1 and isinstance(s.targets[0], ast.Name) \
+                and ast.unparse(s.value) == "self.__class__()":
+            return "(SAssign %d ENewEmpty)" % self.var(s.targets[0].id, define=True)
+        if isinstance(s, ast.Expr) and isinstance(s.value, ast.Call):
+            c = s.value
+            # r.add(k, m[k].pop()) with r, m locals
+            if isinstance(c.func, ast.Attribute) and c.func.attr == "add" and isinstance(c.func.value, ast.Name) \
+                    and c.func.value.id in self.vars and len(c.args) == 2 and not c.keywords \
+                    and isinstance(c.args[1], ast.Call) and isinstance(c.args[1].func, ast.Attribute) \
+                    and c.args[1].func.attr == "pop" and not c.args[1].args \
+                    and isinstance(c.args[1].func.value, ast.Subscript) \
+                    and isinstance(c.args[1].func.value.value, ast.Name) \
+                    and c.args[1].func.value.value.id in self.vars \
+                    and ast.unparse(c.args[1].func.value.slice) == ast.unparse(c.args[0]):
+                return "(SObjAddPop %d %d %s)" % (self.var(c.func.value.id), self.var(c.args[1].func.value.value.id),
+                                                 self.expr(c.args[0]))
         if isinstance(s, ast.Try) and self.fn.name == "_clear_ll" and ast.unparse(s) == CLEAR_LL_TRY:
             self.map_alias.add("_map")
             return "SInitMap"
@@ -349,6 +409,11 @@ class Method:
                         return None
                     if isinstance(v, ast.Attribute) and v.attr == "__getitem__" and self.is_super(v.value):
                         self.store_getitem_alias.add(t.id)           # x = super().__getitem__
+                        return None
+                    if isinstance(v, ast.Call) and ast.unparse(v.func) == "zip_longest" and len(v.args) == 2 \
+                            and all(isinstance(a, ast.Name) for a in v.args) and len(v.keywords) == 1 \
+                            and ast.unparse(v.keywords[0]) == "fillvalue=(_MISSING, _MISSING)":
+                        self.zip_alias[t.id] = (v.args[0].id, v.args[1].id)
                         return None
                     if ast.unparse(v) == "self.__class__":         # cls = self.__class__
                         self.cls_alias.add(t.id)
@@ -443,8 +508,20 @@ class Method:
             return "(SIf %s %s %s)" % (self.expr(s.test, boolean=True), self.block(s.body), self.block(s.orelse))
         if isinstance(s, ast.While) and not s.orelse:
             return "(SWhile %s %s)" % (self.expr(s.test, boolean=True), self.block(s.body))
+        if isinstance(s, ast.For) and not s.orelse and isinstance(s.iter, ast.Name) and s.iter.id in self.zip_alias \
+                and isinstance(s.target, ast.Tuple) and len(s.target.elts) == 2 \
+                and all(isinstance(t, ast.Tuple) and len(t.elts) == 2 and all(isinstance(x, ast.Name) for x in t.elts)
+                        for t in s.target.elts):
+            if any(isinstance(x, ast.Break) for x in ast.walk(s)):
+                self.bad("break inside a zip_longest loop", s)
+            a, b = self.zip_alias[s.iter.id]
+            ea, eb = self.expr(ast.Name(id=a)), self.expr(ast.Name(id=b))
+            vs = [self.var(x.id, define=True) for t in s.target.elts for x in t.elts]
+            body = self.block(s.body)
+            self.exhausted.update((a, b))
+            return "(SForZip %d %d %d %d %s %s %s)" % (vs[0], vs[1], vs[2], vs[3], ea, eb, body)
         if isinstance(s, ast.For) and not s.orelse and isinstance(s.target, ast.Name):
-            it = self.expr(s.iter)
+            it = self.iter_source(s.iter)
             x = self.var(s.target.id, define=True)
             return "(SFor %d %s %s)" % (x, it, self.block(s.body))
         if isinstance(s, ast.For) and not s.orelse and isinstance(s.target, ast.Tuple) and len(s.target.elts) == 2 \
@@ -457,6 +534,8 @@ class Method:
             h = s.handlers[0]
             if isinstance(h.type, ast.Name) and h.type.id == "KeyError" and h.name is None:
                 return "(STryKeyError %s %s)" % (self.block(s.body), self.block(h.body))
+            if isinstance(h.type, ast.Name) and h.type.id == "TypeError" and h.name is None:
+                return "(STryTypeError %s %s)" % (self.block(s.body), self.block(h.body))
             self.bad("except clause", s)
         if isinstance(s, ast.Return):
             return "(SReturn %s)" % ("ENone" if s.value is None else self.expr(s.value))
